@@ -72,10 +72,11 @@ CLAIMED['C18'] = dict(
          'non-empty denotations exactly one of a<b, b<a, overlap holds, < is irreflexive and transitive.  Critical sections (they run '
          'under m_lock, hence sequentially): a granted range overlaps no held range and keeps the set ordered; a request overlapping a held '
          'range is never granted and waits once; adjust_range succeeds only if the new range overlaps no other holder and keeps the order, '
-         'and changes nothing when refused.',
+         'and changes nothing when refused; unlock(offset,length) (Hoare loop rule on the erase loop) releases every held range inside the given '
+         'range and no other, unlock(handle) exactly that range.',
     note=TRUST + ' std::set is modelled as a sorted array with assumed lower_bound/emplace_hint/erase contracts; the set invariant is used at '
          'ghost-index instances.  Not decided: a waiter is woken when the conflicting range is unlocked and eventually acquires (condition '
-         'variable + scheduler); unlock(offset,length) erase loop; held empty ranges.',
+         'variable + scheduler, ~Range() notifying); held empty ranges.',
     technique='deductive verification: loop-free full-domain CBMC harnesses (ghost-index set invariant) on mechanically lowered real code',
     design='§6 C18')
 CLAIMED['C12'] = dict(
